@@ -494,6 +494,8 @@ struct PropStats
   bool failed = false;
   std::string failmsg;
   std::string result;
+  long long nontrivial_override = -1;  // exhaustive sweeps: distinct by construction, counted not hashed
+  bool exhaustive = false;
 };
 
 inline uint64_t fnv(const std::string &s)
@@ -559,7 +561,8 @@ inline void dump_stats(const char *how)
         f << ",";
       first = false;
       f << "{\"name\":" << json_str(s.name) << ",\"evaluations\":" << s.evaluations
-        << ",\"distinct_nontrivial\":" << s.nontrivial.size() << ",\"failed\":" << (s.failed ? "true" : "false")
+        << ",\"distinct_nontrivial\":" << (s.nontrivial_override >= 0 ? (unsigned long long)s.nontrivial_override : (unsigned long long)s.nontrivial.size())
+        << ",\"exhaustive\":" << (s.exhaustive ? "true" : "false") << ",\"failed\":" << (s.failed ? "true" : "false")
         << ",\"failmsg\":" << json_str(s.failmsg) << ",\"result\":" << json_str(s.result) << ",\"labels\":{";
       bool f2 = true;
       for (auto &kv : s.labels) {
@@ -591,6 +594,8 @@ inline void dump_stats(const char *how)
   }
   rename(tmp.c_str(), path.c_str());
   for (auto &sp : g.stats) {
+    if (sp->nontrivial_override >= 0)
+      continue;
     std::string hp = g.outdir + "/" + g.bin + "." + sp->name + ".hashes";
     std::vector<uint64_t> v(sp->nontrivial.begin(), sp->nontrivial.end());
     FILE *hf = fopen(hp.c_str(), "wb");
@@ -830,6 +835,72 @@ int minimize_impl(Prop<Case> &p, std::istream &is, const std::string &outPath)
   }
   write_file(outPath, p.name + "@" + G().bin + "\n" + to_text(cur) + "\n# minimised crash/hang case\n");
   return 0;
+}
+
+
+// ---------------------------------------------------------------- exhaustive sweeps
+// A sweep enumerates a finite domain completely in a tight (possibly
+// multi-threaded) loop of its own and reports counts; `checkOne` is the same
+// oracle applied to a single saved case (replay).
+template <class Case>
+struct SweepResult
+{
+  uint64_t evaluations = 0;   // values enumerated
+  uint64_t nontrivial = 0;    // values inside the property's stated domain (each enumerated once => distinct)
+  bool failed = false;
+  Case failing{};
+  std::string msg;
+  std::vector<Case> samples;
+  std::map<std::string, uint64_t> labels;
+};
+template <class Case>
+struct Sweep : Prop<Case>
+{
+  std::function<void(SweepResult<Case> &)> enumerate;
+  Sweep() : Prop<Case>(rc::gen::just(Case{})) {}
+  bool run(uint64_t, double, int) override
+  {
+    Global &g = G();
+    g.stats.emplace_back(new PropStats);
+    PropStats &st = *g.stats.back();
+    st.name = this->name;
+    st.exhaustive = true;
+    g.cur = &st;
+    const std::string failPath = g.outdir + "/" + g.bin + "." + this->name + ".failing.case";
+    unlink(failPath.c_str());
+    SweepResult<Case> r;
+    g.case_started_ms = now_ms();
+    enumerate(r);
+    st.evaluations = r.evaluations;
+    st.nontrivial_override = (long long)r.nontrivial;
+    for (auto &kv : r.labels)
+      st.labels[kv.first] = kv.second;
+    for (auto &c : r.samples)
+      if (st.samples.size() < 6)
+        st.samples.push_back(to_text(c));
+    if (r.failed) {
+      st.failed = true;
+      st.failmsg = r.msg;
+      write_file(failPath, this->name + "@" + g.bin + "\n" + to_text(r.failing) + "\n# " + r.msg + "\n");
+    }
+    st.result = r.failed ? "sweep found a violation" : "sweep complete";
+    g.cur = nullptr;
+    std::cerr << "[" << g.bin << "] " << this->name << ": " << (r.failed ? "FAILED " : "OK ") << r.evaluations
+              << " enumerated, " << r.nontrivial << " in domain\n";
+    if (r.failed)
+      std::cerr << r.msg << "\n";
+    return !r.failed;
+  }
+};
+template <class Case, class En, class Fn>
+void sweep(const std::string &name, En enumerate, Fn checkOne)
+{
+  auto *p = new Sweep<Case>();
+  p->name = name;
+  p->cases = 1;
+  p->fn = checkOne;
+  p->enumerate = enumerate;
+  registry().emplace_back(p);
 }
 
 // range generator that does not collapse at small sizes
